@@ -15,7 +15,7 @@ from mdsa.cfg import walk_local
 from mdsa.loader import AnalysisError, dotted
 
 from . import c02
-from .common import Ctx, calls_named, fs_sinks, index_kind, node_of
+from .common import Ctx, calls_named, fs_sinks, index_kind, local_defs, node_of
 
 EXPLANATION = (
     "R1 (all crash points): a killed process can only damage files it holds open for writing; the C02 ownership rules "
@@ -168,8 +168,13 @@ def r2_manifest_after_commit(P, rep, ctx, rule="C11.R2"):
     ub_saves = [c for c in local_calls(fi.node) if call_attr(c) == "save" and not any(call_attr(x) == "save" and x is c and norm(c.func.value) in ("mf", "self.manifest", "self._manifest") for x in [c])]
     rep.check(not ub_saves, rule, fi.qual, "the manifest subclass writes no user block of its own (single write inside the container commit)", fi.loc(ub_saves[0]) if ub_saves else fi.loc(), construct=f"extra save calls {[norm(c)[:60] for c in ub_saves]}",
               message=f"IH5MFRecord.commit_patch writes the user block a second time ({[norm(c)[:60] for c in ub_saves]}): a crash between the two writes leaves a container that opens as committed but lacks the manifest link it was committed with")
-    link = [n.idx for n in g.nodes if any(call_attr(c) == "update" and "IH5UBExtManifest(" in norm(c.func.value) for c in g.calls(n.idx))] + [n.idx for n in g.nodes if any(call_attr(c) == "_set_ublock" and len(c.args) > 1 and norm(c.args[1]) == "new_ub" for c in g.calls(n.idx))]
-    rep.check(bool(link) and all(g.every_path_passes(link, s) for s in sup), rule, fi.qual, "the manifest link is attached to the user block before the (single) commit write", fi.loc(), construct="manifest link before commit", message="the manifest link is not part of the user block written by the container commit")
+    link1 = [n.idx for n in g.nodes if any(call_attr(c) == "update" and "IH5UBExtManifest(" in norm(c.func.value) and c.args and norm(c.args[0]) == "new_ub" for c in g.calls(n.idx))]
+    link2 = [n.idx for n in g.nodes if any(call_attr(c) == "_set_ublock" and len(c.args) > 1 and norm(c.args[0]) == "-1" and norm(c.args[1]) == "new_ub" for c in g.calls(n.idx))]
+    ok = bool(link1) and bool(link2) and all(g.every_path_passes(link1, x) for x in link2) and all(g.every_path_passes(link2, s) for s in sup)
+    rep.check(ok, rule, fi.qual, "the manifest link is put into a copy of the user block, which is installed as the newest block before the (single) commit write", fi.loc(), construct="manifest link before commit",
+              message="the user block written by the container commit does not carry the manifest link (extension not attached to new_ub, or new_ub not installed with _set_ublock(-1, new_ub) before super().commit_patch)")
+    nd = [norm(v) for k, v in local_defs(fi).get("new_ub", []) if v is not None]
+    rep.check(nd == ["old_ub.copy()"], rule, fi.qual, "the committed block is a copy of the current one (the original is kept for roll-back)", fi.loc(), construct=f"new_ub = {nd}", message=f"new_ub is {nd}")
     # failed commit restores the user block
     exc = [n for n in g.nodes if n.kind == "except"]
     for h in exc:
